@@ -81,7 +81,8 @@ def s_chain(draw, min_len=1, max_len=6, worm='maybe', locking=None, optional_dat
         kind = draw(st.sampled_from(options))
         J = s_qty(draw, 'InertiaMoment', s_mag(-8, -3))
         if kind == 'gear':
-            el = {'type': pt, 'n_teeth': draw(st.integers(10, 80)), 'J': J,
+            el = {'type': pt, 'n_teeth': prev['n_teeth'] if draw(st.integers(0, 7)) == 0 else draw(st.integers(10, 80)),
+                  'J': J,
                   'link': {'kind': 'gear', 'eta': draw(st.one_of(st.floats(0.5, 1.0), st.sampled_from([1, 1.0, 0.9])))}}
             if pt == 'helical':
                 el['helix'] = _requal(prev['helix'], 'Angle', draw, requal)
@@ -246,7 +247,10 @@ def s_case(draw, max_len=6, worm='maybe', locking=None, histories=('run', 'run+c
     elif h == 'run+continue':
         case['history'] = [run1, s_run(draw, mdl, max_steps=max(3, max_steps // 2))]
     else:
-        case['history'] = [run1, {'op': 'reset', 'reinit': True}, dict(run1, new_solver=draw(st.booleans()))]
+        reset = {'op': 'reset', 'reinit': True}
+        if draw(st.booleans()):
+            reset['init'] = s_init(draw, mdl)            # rerun from other initial conditions
+        case['history'] = [run1, reset, dict(run1, new_solver=draw(st.booleans()))]
     return case
 
 
@@ -255,7 +259,9 @@ def s_constant_rules(draw, horizon_si, max_rules=3, values=None):
     n = draw(st.integers(0, max_rules))
     if n == 0:
         return []
-    cuts = sorted(draw(st.lists(st.floats(0.0, 1.2), min_size=2 * n, max_size=2 * n, unique=True)))
+    # cuts on a 1/1000 lattice of the horizon: two windows are separated by at least 1e-4 of the horizon, far above
+    # the comparison tolerance of the library
+    cuts = sorted(c / 1000.0 for c in draw(st.lists(st.integers(0, 1200), min_size=2 * n, max_size=2 * n, unique=True)))
     vals = values if values is not None else st.one_of(st.floats(-1, 1), st.sampled_from([0, 0.0, 1, -1, 0.5, -0.5, 0.3]))
     rules = []
     for j in range(n):
